@@ -21,19 +21,11 @@ What is proved, for every document (no bound on sizes or nesting):
 * an item, a detection, a detection section that loaded is written, and what is written loads to the
   *same object* (hence is written identically again, and means the same to any consumer of the object);
 * the exact classes for which this fails in the code are excluded by hypotheses and recorded as witness
-<<<<<<< lean/SigmaVerif/Props/C06.lean
-  theorems (findings D3, D62–D65 of the code; D67, D73 for transformed rules);
-* the key-merging loop: fusing non-negated items preserves the meaning, a `neq` collision is refused, and the
-  `neq` + `all` collision still changes the meaning (`merge_all_preserves_meaning`,
-  `merge_all_lists_preserves_meaning`, `neq_collision_refused`, `neq_merge_would_change_meaning`,
-  `neq_all_merge_changes_meaning`);
-=======
   theorems (findings D3, D62–D65 of the code; D67 for transformed rules);
 * the key-merging loop: fusing non-negated items preserves the meaning, every collision of a key carrying `neq` is refused
   because fusing would change the meaning (`merge_all_preserves_meaning`,
   `merge_all_lists_preserves_meaning`, `neq_collision_refused`, `neq_merge_would_change_meaning`,
   `neq_all_collision_refused`, `neq_all_merge_would_change_meaning`);
->>>>>>> /tmp/int_theirs
 * value transformations and one-to-many field mappings are faithful or refuse (`resync_faithful`,
   `resync_nonplain_refuses`, `split_faithful`, `split_replaced_refuses`, `and_of_detections_refused`:
   the former findings D60, D61, D68, fixed in the code);
@@ -272,16 +264,6 @@ theorem neq_merge_would_change_meaning :
       a.eval (fun t => t == .str (some ['c']) false [.lit 'x']) = false ∧
       b.eval (fun t => t == .str (some ['c']) false [.lit 'x']) = true := ⟨_, _, rfl, rfl, rfl, rfl⟩
 
-<<<<<<< lean/SigmaVerif/Props/C06.lean
-/-- **Finding D73**: the refusal does not cover keys that already carry `all`: two `c|neq|all` items get
-their value lists concatenated (`"|all" in k` branch), the reload is NOT (c=x AND c=y) instead of
-NOT c=x AND NOT c=y. -/
-theorem neq_all_merge_changes_meaning :
-    ∃ j a b,
-      toPlainDet (.node [.item ⟨some ['c'], ["neq".toList, "all".toList], [.str false [.lit 'x']], true, true, some [.str false [.lit 'x']]⟩,
-                         .item ⟨some ['c'], ["neq".toList, "all".toList], [.str false [.lit 'y']], true, true, some [.str false [.lit 'y']]⟩] false)
-        = .ok (.map [("c|neq|all".toList, .many [.str ['x'], .str ['y']])]) ∧
-=======
 /-- **A collision of two negated `…|all` items is refused as well** (fix aeb74f2 of the code: the test for
 `neq` sits at the key collision itself, before the `"|all" in k` branch) … -/
 theorem neq_all_collision_refused :
@@ -294,17 +276,12 @@ theorem neq_all_collision_refused :
 conjunction of all values. -/
 theorem neq_all_merge_would_change_meaning :
     ∃ j a b,
->>>>>>> /tmp/int_theirs
       fromDef env0 (.map [("c|neq|all".toList, .many [.str ['x'], .str ['y']])]) = .ok (.node [.item j] false) ∧
       detObjBE cx0 (.node [.item ⟨some ['c'], ["neq".toList, "all".toList], [.str false [.lit 'x']], true, true, none⟩,
                            .item ⟨some ['c'], ["neq".toList, "all".toList], [.str false [.lit 'y']], true, true, none⟩] false) = .ok a ∧
       detObjBE cx0 (.node [.item j] false) = .ok b ∧
       a.eval (fun t => t == .str (some ['c']) false [.lit 'x']) = false ∧
-<<<<<<< lean/SigmaVerif/Props/C06.lean
-      b.eval (fun t => t == .str (some ['c']) false [.lit 'x']) = true := ⟨_, _, _, rfl, rfl, rfl, rfl, rfl, rfl⟩
-=======
       b.eval (fun t => t == .str (some ['c']) false [.lit 'x']) = true := ⟨_, _, _, rfl, rfl, rfl, rfl, rfl⟩
->>>>>>> /tmp/int_theirs
 
 /-! ## 3. items changed by a pipeline -/
 
